@@ -40,7 +40,7 @@ class _View:
 STREAMKIND = {"kind": "scripted", "bufsize": 16}
 
 
-def run(data, **kw):
+def make(data, **kw):
     import io
 
     from pyrtcm import RTCMReader
@@ -52,6 +52,11 @@ def run(data, **kw):
     else:
         stream = ScriptedStream(data, (), slack=32)
         rdr = RTCMReader(stream, **kw)
+    return rdr, stream, data, kw
+
+
+def drive(made):
+    rdr, stream, data, kw = made
     out = []
     for _ in range(len(data) + 8):
         try:
@@ -69,6 +74,17 @@ def run(data, **kw):
             raise Fail("early-end", f"reader stopped at offset {stream.pos} of {len(data)} ({kw})")
         out.append((raw, parsed, stream.pos))
     return out, stream
+
+
+PRE = {}
+
+
+def run(data, **kw):
+    """drive the reader for this configuration; if the readers were constructed up-front (all configurations alive
+    at the same time, as in an application with several connections), use that instance"""
+    key = (id(data), tuple(sorted(kw.items())))
+    made = PRE.pop(key, None) or make(data, **kw)
+    return drive(made)
 
 
 def spans(out, data, cfg):
@@ -121,6 +137,18 @@ def _o_opts(case):
     goodframes = [bytes.fromhex(i["b"]) for i in items if i["k"] == "frame"]
     gall = [bytes.fromhex(i["b"]) for i in fixed_items if i["k"] == "frame"]
 
+    PRE.clear()
+    if case.get("preconstruct"):
+        # all five readers exist before the first one is read (options must belong to the instance)
+        for d, kw in (
+            (data, dict(validate=0, quitonerror=qoe, labelmsm=lm, parsed=True)),
+            (data, dict(validate=1, quitonerror=qoe, labelmsm=lm, parsed=True)),
+            (gdata, dict(validate=case["validate"], quitonerror=qoe, labelmsm=lm, parsed=True)),
+            (gdata, dict(validate=case["validate"], quitonerror=qoe, labelmsm=lm, parsed=False)),
+            (data, dict(validate=case["validate"], quitonerror=qoe, labelmsm=lm, parsed=False)),
+            (data, dict(validate=1 - case["validate"], quitonerror=(qoe + 1) % 3, labelmsm=3 - lm, parsed=False)),
+        ):
+            PRE[(id(d), tuple(sorted(kw.items())))] = make(d, **kw)
     # validate = 0: everything returned, decoded as with the right CRC
     v0, s0 = run(data, validate=0, quitonerror=qoe, labelmsm=lm, parsed=True)
     r0 = [x for x in v0 if x[0] != "exc"]
@@ -172,7 +200,7 @@ def _o_opts(case):
             raise Fail("byte-accounting", f"{nm}: stream not consumed to the end")
     nbad = len(allframes) - len(goodframes)
     foreign = any(i["k"] in ("nmea", "ubx", "noise") for i in items)
-    cls = [f"qoe{qoe}", f"labelmsm{lm}", f"validate{case['validate']}", "stream-" + case.get("stream", "scripted")] + (["debug-logging"] if case.get("debug") else [])
+    cls = [f"qoe{qoe}", f"labelmsm{lm}", f"validate{case['validate']}", "stream-" + case.get("stream", "scripted")] + (["debug-logging"] if case.get("debug") else []) + (["readers-constructed-up-front"] if case.get("preconstruct") else [])
     if nbad:
         cls.append("has-wrong-crc")
     if any(i["k"] == "badcrc" and i.get("syncy_payload") for i in items):
@@ -202,6 +230,7 @@ def s_opts(draw, tier):
         "stream": draw(st.sampled_from(["scripted", "scripted", "buffered"])),
         "bufsize": draw(st.sampled_from([2, 3, 16, 16, 64, 8192])),
         "debug": draw(st.integers(0, 3)) == 0,
+        "preconstruct": draw(st.booleans()),
     }
 
 
